@@ -245,7 +245,7 @@ func c12MetaOK(op c12Op, digest string) string {
 }
 
 func c12Schema(t *rapid.T) *gen.SchemaSpec {
-	o := gen.SchemaOpts{MinTypes: 2, MaxTypes: 3, MaxAttrs: 4, MaxRelEdges: 5, AllKindsChance: 0, OddRelKeys: true, OddCardinality: true}
+	o := gen.SchemaOpts{MinTypes: 2, MaxTypes: 3, MaxAttrs: 4, MaxRelEdges: 5, AllKindsChance: 0, OddRelKeys: true, OddCardinality: true, OneEmptyFromType: true}
 
 	// "Every schema": one in three is large (a lookup structure may only be
 	// built beyond some size).
